@@ -165,8 +165,22 @@ class GroupPipe:
                     absn = comp.pathname + "." + n
                     if source_value(absn) is None:
                         prom = self.prom_out.get(absn, absn)
-                        vals[absn] = symarray(prom, tuple(self.meta_out[absn]["shape"]))
-                        created[prom] = vals[absn]
+                        parent = self.model._get_subsystem(comp.pathname.rsplit(".", 1)[0]) if "." in comp.pathname else self.model
+                        try:
+                            rel = parent._resolver.abs2prom(absn, "output")
+                        except Exception:
+                            rel = None
+                        if type(comp) is om.IndepVarComp and type(parent).__module__.startswith("openaerostruct") and rel == comp.name + "." + n:
+                            # an IndepVarComp a library group creates for itself (e.g. alpha = beta = 0 of the Prandtl-Glauert
+                            # frame) is a constant of that group, not a model input: its declared value is used
+                            from .sym import symify as _symify
+
+                            vals[absn] = _symify(np.array(self.prob.get_val(absn), dtype=float).reshape(tuple(self.meta_out[absn]["shape"])))
+                            self.constants = getattr(self, "constants", {})
+                            self.constants[absn] = vals[absn]
+                        else:
+                            vals[absn] = symarray(prom, tuple(self.meta_out[absn]["shape"]))
+                            created[prom] = vals[absn]
                 continue
             sc = self._wrap(comp)
             ins = {}
